@@ -27,6 +27,7 @@ func c06(c *Ctx) {
 	r.Decides("NodeAllocation.update is release+addPodAllocation unless a skip compares every field addPodAllocation uses for the ledgers; in takePreferredCPUs every CPU set offered to takeCPUs is derived from the free set by Intersection/Difference only, and the second offer excludes the first")
 	r.Decides("a pod delete that arrives as a tombstone (by value) releases the allocation like a plain delete")
 	r.Decides("getAvailableCPUs works on a clone of the CPU ledger (no write to shared state under the read lock) and returns the topology's CPUs minus those whose reference count reached the sharing limit (>=) minus the reserved CPUs")
+	r.Decides("allocateRes hands out the request when the node has more and what the node has otherwise (never more than available); in the NUMA split the amount recorded for a node is that result for the SAME node id, is recorded under that id, and is subtracted from what is still to be placed in the same step")
 	r.Declines("exact count of CPUs, disjointness of CPU ids, never-more-than-free (set arithmetic over topologies)")
 	r.Declines("equality of the ledger with the sum of live pods' allocations over a history")
 
@@ -45,6 +46,7 @@ func c06(c *Ctx) {
 	c06frame(c)
 	c06subset(c)
 	c06available(c)
+	c06numaSplit(c)
 
 	// ---- MIRROR
 	r.Rule("MIRROR: the effect sets of addPodAllocation and release over the receiver's fields have the same roots and dual operations (mapstore<->mapdelete, Insert<->delete, Add<->Subtract*, RefCount+1<->RefCount-1) on the same amount operand")
@@ -487,4 +489,357 @@ func c06available(c *Ctx) {
 		}
 	}
 	r.Check(okCmp, "FLOW", key+"/saturated=refcount>=limit", c.Pos(fn.Pos()), "a CPU is saturated when RefCount >= maxRefCount", "the saturation filter is not 'RefCount >= maxRefCount': with '>' a CPU is handed to one more pod than the sharing limit allows")
+}
+
+// c06numaSplit: never more from a NUMA node than it had free; what is recorded is what is subtracted.
+func c06numaSplit(c *Ctx) {
+	r := c.R
+	r.Rule("PATH/FLOW(NUMA split): allocateRes returns as 'allocated' a copy of the request on arms where available >= request and a copy of available on arms where available <= request (the arm is read from the comparisons on Cmp that guard it); in tryBestToDistributeEvenly the quantity stored for a NUMA node is the 'allocated' result of allocateRes(totalAvailable[id][res], ..) for the same id under which it is stored (record key and Node field), and in the same block it is subtracted from the remaining quantity; the remaining quantity is written back to requests after the node loop; a non-zero remainder of a NUMA-level resource always appends a reason and the reasons are returned; allocateResourcesByHint never returns success when reasons are non-empty")
+	derives := func(v ssa.Value, p *ssa.Parameter) bool {
+		for x := range backwardAll(v) {
+			if x == ssa.Value(p) {
+				return true
+			}
+			// parameters whose address is taken are spilled: the cell of the parameter
+			if a, ok := x.(*ssa.Alloc); ok && a.Comment == p.Name() {
+				return true
+			}
+		}
+		return false
+	}
+	if fn := c.Fn(numaPkg, "", "allocateRes"); fn != nil && len(fn.Params) == 2 {
+		avail, req := fn.Params[0], fn.Params[1]
+		okAll, n := true, 0
+		var why []string
+		for _, alt := range an.ReturnAlts(fn) {
+			if len(alt.Results) != 3 {
+				continue
+			}
+			n++
+			// possible values of available.Cmp(request) on this arm
+			poss := map[int64]bool{-1: true, 0: true, 1: true}
+			for _, g := range alt.Guards {
+				rel, ok := an.RelOf(g)
+				if !ok {
+					continue
+				}
+				call, _ := an.ResultOfCall(rel.X)
+				k, isC := constIntOf(rel.Y)
+				if call == nil || !isC || an.ShortCallee(&call.Call) != "Cmp" || len(call.Call.Args) != 2 {
+					continue
+				}
+				sign := int64(0)
+				switch {
+				case derives(call.Call.Args[0], avail) && !derives(call.Call.Args[0], req) && derives(call.Call.Args[1], req):
+					sign = 1
+				case derives(call.Call.Args[0], req) && !derives(call.Call.Args[0], avail) && derives(call.Call.Args[1], avail):
+					sign = -1
+				}
+				if sign == 0 {
+					continue
+				}
+				for v := range poss {
+					x := v * sign // value of the Cmp call when available.Cmp(request) == v
+					holds := false
+					switch rel.Op {
+					case token.EQL:
+						holds = x == k
+					case token.NEQ:
+						holds = x != k
+					case token.LSS:
+						holds = x < k
+					case token.LEQ:
+						holds = x <= k
+					case token.GTR:
+						holds = x > k
+					case token.GEQ:
+						holds = x >= k
+					}
+					if !holds {
+						delete(poss, v)
+					}
+				}
+			}
+			al := alt.Results[2]
+			fromReq, fromAvail := derives(al, req), derives(al, avail)
+			good := false
+			// the copy is handed out as made: if it lives in a local, nothing but reads is done to that local
+			touched := false
+			if ld, ok := an.Origin(al).(*ssa.UnOp); ok && ld.Op == token.MUL {
+				if a, ok := ld.X.(*ssa.Alloc); ok && a.Referrers() != nil {
+					for _, ref := range *a.Referrers() {
+						if cl, ok := ref.(ssa.CallInstruction); ok {
+							switch an.ShortCallee(cl.Common()) {
+							case "IsZero", "Cmp", "DeepCopy", "Value", "MilliValue", "String", "Sign":
+							default:
+								touched = true
+							}
+						}
+					}
+				}
+			}
+			if touched {
+				fromReq, fromAvail = true, true
+			}
+			if !poss[-1] && fromReq && !fromAvail { // available >= request: the request
+				good = true
+			}
+			if !poss[1] && fromAvail && !fromReq { // available <= request: what is there
+				good = true
+			}
+			if !good {
+				okAll = false
+				why = append(why, sprintf("%s: possible Cmp=%v fromRequest=%v fromAvailable=%v", c.InstrPos(alt.Ret), keysInt(poss), fromReq, fromAvail))
+			}
+		}
+		r.Check(okAll && n >= 2, "PATH", fkey(fn)+"/allocated=min(available,request)", c.Pos(fn.Pos()), sprintf("allocated is the request when there is at least as much, else what is available (%d arms)", n), sprintf("allocateRes does not return min(available, request) as the allocated amount on every arm (%d arms examined; %s): more than a NUMA node has free could be handed out", n, strings.Join(why, "; ")))
+	}
+	if fn := c.Fn(numaPkg, "", "tryBestToDistributeEvenly"); fn != nil && len(fn.Params) == 3 {
+		n := 0
+		totalAvail := fn.Params[1]
+		for _, b := range fn.Blocks {
+			for _, in := range b.Instrs {
+				mu, ok := in.(*ssa.MapUpdate)
+				if !ok || !strings.HasSuffix(an.Path(mu.Map), "Resources") || !strings.HasSuffix(mu.Map.Type().String(), "ResourceList") {
+					continue
+				}
+				n++
+				key := fkey(fn) + "/record"
+				// the stored quantity: third result of allocateRes (directly or through the local it was put in)
+				var call *ssa.Call
+				isAlloc := true
+				for _, src := range cellSources(mu.Value) {
+					cl, idx := an.ResultOfCall(src)
+					if cl == nil || an.ShortCallee(&cl.Call) != "allocateRes" || idx != 2 || (call != nil && call != cl) {
+						isAlloc = false
+						break
+					}
+					call = cl
+				}
+				isAlloc = isAlloc && call != nil
+				sameID, subbed := false, false
+				if isAlloc {
+					// first argument: totalAvailable[id][res]; the record is allocatedNUMANodeResources[id]
+					var id, res ssa.Value
+					if outer, ok := an.Origin(call.Call.Args[0]).(*ssa.Lookup); ok {
+						if inner, ok := an.Origin(outer.X).(*ssa.Lookup); ok && derives(inner.X, totalAvail) {
+							id, res = inner.Index, outer.Index
+						}
+					}
+					if id != nil {
+						okKey, okNode, okRes := false, true, res == mu.Key
+						for x := range backwardAll(mu.Map) {
+							if lk, ok := x.(*ssa.Lookup); ok && strings.HasSuffix(lk.X.Type().String(), "NUMANodeResource") {
+								okKey = lk.Index == id
+							}
+						}
+						for _, b2 := range fn.Blocks {
+							for _, in2 := range b2.Instrs {
+								switch y := in2.(type) {
+								case *ssa.MapUpdate:
+									if strings.HasSuffix(y.Map.Type().String(), "NUMANodeResource") && y.Key != id {
+										okKey = false
+									}
+								case *ssa.Store:
+									if _, f, _, ok := an.FieldOf(y.Addr); ok && f == "Node" && y.Val != id {
+										okNode = false
+									}
+								}
+							}
+						}
+						sameID = okKey && okNode && okRes
+					}
+					for _, in2 := range b.Instrs {
+						if cl, ok := in2.(*ssa.Call); ok && an.ShortCallee(&cl.Call) == "Sub" && len(cl.Call.Args) == 2 {
+							all := true
+							for _, src := range cellSources(cl.Call.Args[1]) {
+								if c3, i3 := an.ResultOfCall(src); c3 != call || i3 != 2 {
+									all = false
+								}
+							}
+							if all {
+								subbed = true
+							}
+						}
+					}
+				}
+				r.Check(isAlloc && sameID && subbed, "FLOW", key, c.InstrPos(mu), "recorded = allocated of the same node and resource, subtracted in the same step", sprintf("the amount recorded for a NUMA node: is allocateRes' allocated result=%v, computed from and stored under the same node id and resource=%v, subtracted from the remainder in the same step=%v", isAlloc, sameID, subbed))
+			}
+		}
+		r.Floor("FLOW", "per-node records in tryBestToDistributeEvenly", n, 1)
+
+		// a non-zero remainder is reported: behind IsZero()==false on a quantity ranged from requests, under Has()==true, an append into the returned reasons is unavoidable
+		nz := 0
+		for _, cl := range an.Calls(fn, false) {
+			call, ok := cl.(*ssa.Call)
+			if !ok || an.ShortCallee(&call.Call) != "IsZero" {
+				continue
+			}
+			// only the reporting loop: the receiver is a quantity ranged from requests (not an allocateRes result)
+			fromAlloc := false
+			for x := range backwardAll(call.Call.Args[0]) {
+				if c2, _ := an.ResultOfCall(x); c2 != nil && an.ShortCallee(&c2.Call) == "allocateRes" {
+					fromAlloc = true
+				}
+			}
+			if fromAlloc || !derives(call.Call.Args[0], fn.Params[0]) {
+				continue
+			}
+			nz++
+			facts := an.Facts{call: an.False}
+			for _, g := range an.Guards(call) {
+				if c2, _ := an.ResultOfCall(g.Cond); c2 != nil && an.ShortCallee(&c2.Call) == "Has" && !g.Truth {
+					facts = nil // reported only for resources NOT in the NUMA set: wrong polarity
+				}
+			}
+			var app *ssa.Call
+			reach := an.Explore(fn, an.After(call), facts, func(in ssa.Instruction) bool {
+				if a, ok := in.(*ssa.Call); ok && an.IsBuiltinCall(a, "append") && strings.HasSuffix(a.Type().String(), "[]string") {
+					app = a
+					return true
+				}
+				return false
+			})
+			escaped := facts == nil
+			for _, ret := range reach.Returns() {
+				_ = ret
+				escaped = true
+			}
+			// the loop header is reachable only through the append: any return reached without it means the reason was skipped
+			retOK := false
+			if app != nil {
+				for _, alt := range an.ReturnAlts(fn) {
+					ret := alt.Ret
+					if len(ret.Results) == 2 {
+						for x := range backwardAll(ret.Results[1]) {
+							if x == ssa.Value(app) {
+								retOK = true
+							}
+						}
+					}
+				}
+			}
+			r.Check(!escaped && app != nil && retOK, "PATH", fkey(fn)+"/remainder-reported", c.InstrPos(call), "a non-zero remainder of a NUMA-level resource always adds a reason that is returned", sprintf("with a non-zero remainder the function can return without having appended a reason (escaped=%v append found=%v returned=%v)", escaped, app != nil, retOK))
+		}
+		r.Floor("PATH", "remainder tests in tryBestToDistributeEvenly", nz, 1)
+
+		// the remainder is written back: after the node loop requests[res] = *quantity where quantity is the cell Sub() worked on
+		wb := false
+		for _, b := range fn.Blocks {
+			for _, in := range b.Instrs {
+				mu, ok := in.(*ssa.MapUpdate)
+				if !ok || !derives(mu.Map, fn.Params[0]) {
+					continue
+				}
+				ld, ok := mu.Value.(*ssa.UnOp)
+				if !ok || ld.Op != token.MUL {
+					continue
+				}
+				for _, b2 := range fn.Blocks {
+					for _, in2 := range b2.Instrs {
+						if cl, ok := in2.(*ssa.Call); ok && an.ShortCallee(&cl.Call) == "Sub" && len(cl.Call.Args) == 2 && cl.Call.Args[0] == ld.X {
+							wb = true
+						}
+					}
+				}
+			}
+		}
+		r.Check(wb, "FLOW", fkey(fn)+"/remainder-written-back", c.Pos(fn.Pos()), "requests[res] receives the quantity the per-node amounts were subtracted from", "the remaining quantity (after subtracting what each node gave) is not written back to requests: an unsatisfied request would look satisfied")
+	}
+	if fn := c.Fn(numaPkg, "resourceManager", "allocateResourcesByHint"); fn != nil {
+		calls := an.CallsTo(fn, false, load.Module+"/"+numaPkg+".tryBestToDistributeEvenly")
+		if len(calls) != 1 {
+			r.Unknown("PATH", fkey(fn)+"/reasons=>failure", c.Pos(fn.Pos()), sprintf("expected one call to tryBestToDistributeEvenly, found %d", len(calls)))
+			return
+		}
+		call := calls[0].(*ssa.Call)
+		facts := an.Facts{}
+		nl := 0
+		for _, b := range fn.Blocks {
+			for _, in := range b.Instrs {
+				bo, ok := in.(*ssa.BinOp)
+				if !ok {
+					continue
+				}
+				ln, isCall := bo.X.(*ssa.Call)
+				k, isC := constIntOf(bo.Y)
+				if !isCall || !isC || k != 0 || !an.IsBuiltinCall(ln, "len") {
+					continue
+				}
+				isReasons := false
+				for _, src := range cellSources(ln.Call.Args[0]) {
+					if c2, i2 := an.ResultOfCall(src); c2 == call && i2 == 1 {
+						isReasons = true
+					}
+				}
+				if !isReasons {
+					continue
+				}
+				switch bo.Op {
+				case token.GTR, token.NEQ:
+					facts[bo] = an.True
+					nl++
+				case token.EQL, token.LEQ:
+					facts[bo] = an.False
+					nl++
+				}
+			}
+		}
+		reach := an.Explore(fn, an.After(call), facts, nil)
+		var bad []string
+		for _, ret := range reach.Returns() {
+			for _, alt := range reach.Alts(ret) {
+				if len(alt.Results) == 2 && reach.EvalAlt(alt, 1) != an.NonNil {
+					bad = append(bad, c.InstrPos(ret))
+				}
+			}
+		}
+		r.Check(nl > 0 && len(bad) == 0, "PATH", fkey(fn)+"/reasons=>failure", c.InstrPos(call), "with reasons reported by the split every return carries a non-nil status", sprintf("with a non-empty reasons list from the split a return without a failure status is reachable (%s; %d tests on len(reasons) found)", strings.Join(bad, ", "), nl))
+	}
+}
+
+// cellSources: the values a value can come from when it is a load of a local cell (recursively), else the value itself.
+func cellSources(v ssa.Value) []ssa.Value {
+	seen := map[ssa.Value]bool{}
+	var out []ssa.Value
+	var walk func(v ssa.Value)
+	walk = func(v ssa.Value) {
+		v = an.Origin(v)
+		if seen[v] {
+			return
+		}
+		seen[v] = true
+		if ld, ok := v.(*ssa.UnOp); ok && ld.Op == token.MUL {
+			if a, ok := ld.X.(*ssa.Alloc); ok && a.Referrers() != nil {
+				n := 0
+				for _, ref := range *a.Referrers() {
+					if st, ok := ref.(*ssa.Store); ok && st.Addr == ssa.Value(a) {
+						walk(st.Val)
+						n++
+					}
+				}
+				if n > 0 {
+					return
+				}
+			}
+		}
+		if phi, ok := v.(*ssa.Phi); ok {
+			for _, e := range phi.Edges {
+				walk(e)
+			}
+			return
+		}
+		out = append(out, v)
+	}
+	walk(v)
+	return out
+}
+
+func keysInt(m map[int64]bool) []int64 {
+	var out []int64
+	for k := range m {
+		out = append(out, k)
+	}
+	sort.Slice(out, func(i, j int) bool { return out[i] < out[j] })
+	return out
 }
